@@ -317,7 +317,7 @@ fn eval<P: Property>(case: &P::Case, known: &KnownFindings) -> (Outcome, Option<
         eprintln!("CASE {}", serde_json::to_string(case).unwrap_or_default());
     }
     let t0 = std::time::Instant::now();
-    let r = catch(|| P::check(case));
+    let r = if std::env::var_os("VERIF_ISOLATE").is_some() { fork_check::<P>(case) } else { catch(|| P::check(case)) };
     if let Some(ms) = std::env::var("VERIF_SLOW_MS").ok().and_then(|v| v.parse::<u128>().ok()) {
         let el = t0.elapsed().as_millis();
         if el > ms {
@@ -344,6 +344,88 @@ fn eval<P: Property>(case: &P::Case, known: &KnownFindings) -> (Outcome, Option<
             let f = f.clone();
             (out, Some(f), is_known)
         }
+    }
+}
+
+/// Isolation mode (`VERIF_ISOLATE`, used by the driver after a worker process died from a signal): the check runs
+/// in a forked child, so an abort / segmentation fault / stack overflow inside the code under test is attributed
+/// to the case that caused it instead of taking the worker down. Labels are not carried over in this mode.
+fn fork_check<P: Property>(case: &P::Case) -> Result<Outcome, String> {
+    use std::io::Read;
+    use std::os::fd::FromRawFd;
+    let mut fds = [0i32; 2];
+    if unsafe { libc::pipe(fds.as_mut_ptr()) } != 0 {
+        return catch(|| P::check(case));
+    }
+    let pid = unsafe { libc::fork() };
+    if pid < 0 {
+        unsafe {
+            libc::close(fds[0]);
+            libc::close(fds[1]);
+        }
+        return catch(|| P::check(case));
+    }
+    if pid == 0 {
+        unsafe {
+            libc::close(fds[0]);
+            // a crashing child must be cheap: no core dump
+            let lim = libc::rlimit { rlim_cur: 0, rlim_max: 0 };
+            libc::setrlimit(libc::RLIMIT_CORE, &lim);
+            libc::prctl(libc::PR_SET_DUMPABLE, 0);
+        }
+        let r = catch(|| P::check(case));
+        let v = match r {
+            Ok(o) => serde_json::json!({"nontrivial": o.nontrivial, "failure": o.failure.map(|f| (f.signature, f.what))}),
+            Err(msg) => serde_json::json!({"panic": msg}),
+        };
+        let b = v.to_string().into_bytes();
+        let mut off = 0;
+        while off < b.len() {
+            let n = unsafe { libc::write(fds[1], b[off..].as_ptr() as *const libc::c_void, b.len() - off) };
+            if n <= 0 {
+                break;
+            }
+            off += n as usize;
+        }
+        unsafe { libc::_exit(0) };
+    }
+    unsafe { libc::close(fds[1]) };
+    let mut f = unsafe { std::fs::File::from_raw_fd(fds[0]) };
+    let mut buf = String::new();
+    let _ = f.read_to_string(&mut buf);
+    drop(f);
+    let mut status = 0i32;
+    unsafe { libc::waitpid(pid, &mut status, 0) };
+    if libc::WIFSIGNALED(status) {
+        let sig = libc::WTERMSIG(status);
+        let name = match sig {
+            libc::SIGABRT => "SIGABRT",
+            libc::SIGSEGV => "SIGSEGV",
+            libc::SIGBUS => "SIGBUS",
+            libc::SIGILL => "SIGILL",
+            libc::SIGFPE => "SIGFPE",
+            libc::SIGKILL => "SIGKILL",
+            _ => "signal",
+        };
+        return Ok(Outcome::fail(
+            format!("process-killed/{name}"),
+            format!("the process running this case was terminated by {name} ({sig}): abort, memory-allocation failure or stack overflow in the code under test"),
+        ));
+    }
+    match serde_json::from_str::<serde_json::Value>(&buf) {
+        Ok(v) => {
+            if let Some(m) = v.get("panic").and_then(|m| m.as_str()) {
+                return Err(m.to_string());
+            }
+            let mut o = Outcome::pass(v.get("nontrivial").and_then(|b| b.as_bool()).unwrap_or(false));
+            if let Some(f) = v.get("failure").and_then(|f| f.as_array()) {
+                if let (Some(s), Some(w)) = (f.first().and_then(|x| x.as_str()), f.get(1).and_then(|x| x.as_str())) {
+                    o = Outcome::fail(s.to_string(), w.to_string());
+                }
+            }
+            Ok(o)
+        }
+        Err(_) => Ok(Outcome::fail("harness/isolated-child-gave-no-result", format!("exit status {status}"))),
     }
 }
 
@@ -431,7 +513,7 @@ pub fn run_worker<P: Property>(
         cfg.cases = cases;
         cfg.failure_persistence = None;
         cfg.rng_seed = RngSeed::Fixed(mix(seed, worker as u64, P::ID));
-        cfg.max_shrink_iters = P::MAX_SHRINK_ITERS;
+        cfg.max_shrink_iters = if std::env::var_os("VERIF_ISOLATE").is_some() { P::MAX_SHRINK_ITERS.min(150) } else { P::MAX_SHRINK_ITERS };
         cfg.max_global_rejects = 1 << 30;
         cfg.max_local_rejects = 1 << 20;
         cfg.verbose = 0;
@@ -552,6 +634,14 @@ pub fn entry<P: Property>(has_fuzz: bool) -> Entry {
 
 /// strict evaluation (replay / fuzz): known findings are NOT tolerated
 pub fn strict_eval<P: Property>(case: &P::Case) -> Outcome {
+    // a case that kills the process (abort, allocation failure, stack overflow) is first tried in a forked child
+    if P::PANIC_IS_VIOLATION {
+        if let Ok(o) = fork_check::<P>(case) {
+            if o.failure.as_ref().is_some_and(|f| f.signature.starts_with("process-killed/")) {
+                return o;
+            }
+        }
+    }
     match catch(|| P::check(case)) {
         Ok(o) => o,
         Err(msg) => {
